@@ -316,6 +316,9 @@ func c14WellFormed(c *circuit.Circuit) string {
 		if int(g.Output) >= len(seen) {
 			return fmt.Sprintf("gate %d: output %d out of range", k, g.Output)
 		}
+		if int(g.Output) < ni {
+			return fmt.Sprintf("gate %d overwrites input wire %d", k, g.Output)
+		}
 		seen[g.Output] = true
 	}
 	for i, s := range seen {
@@ -831,16 +834,16 @@ func c14be(vals ...uint32) []byte {
 	return b
 }
 
-// c14F9Witness: header declares 0 gates and 1 wire, one 1-bit input "u1",
-// followed by one XOR gate record 0,0 -> 0.  (The same bytes are the witness
+// c14F9Witness: header declares 0 gates and 2 wires, one 1-bit input "u1",
+// followed by one XOR gate record 0,0 -> 1.  (The same bytes are the witness
 // of C14_mpclc_no_panic_refuted in Coq.)
 func c14F9Witness() []byte {
-	b := c14be(circuit.MAGIC, 0, 1, 1, 0)
+	b := c14be(circuit.MAGIC, 0, 2, 1, 0)
 	b = append(b, c14be(0, 2)...)
 	b = append(b, 'u', '1')
 	b = append(b, c14be(1, 0)...)
 	b = append(b, 0)
-	b = append(b, c14be(0, 0, 0)...)
+	b = append(b, c14be(0, 0, 1)...)
 	return b
 }
 
@@ -861,6 +864,8 @@ func c14Witnesses() []c14Witness {
 		{1, "witness:and-input-is-own-output", []byte("1 3\n2 1 1\n1 1\n\n2 1 0 2 2 AND\n")},
 		{1, "witness:inv-input-is-own-output", []byte("2 4\n1 2\n1 1\n\n2 1 0 1 2 XOR\n1 1 3 3 INV\n")},
 		{1, "witness:negative-n2-length-holds", []byte("2 4\n1 2\n1 1\n\n2 1 0 1 2 XOR\n4 -2 0 1 2\n")},
+		{1, "witness:xor-0-0-0", []byte("1 1\n1 1\n1 1\n\n2 1 0 0 0 XOR\n")},
+		{0, "witness:xor-0-0-0", append(append(c14be(circuit.MAGIC, 1, 1, 1, 0), append(append(c14be(0, 2), 'u', '1'), c14be(1, 0)...)...), append([]byte{0}, c14be(0, 0, 0)...)...)},
 		{1, "witness:huge-n1", []byte("1 2\n1 1\n1 1\n\n9223372036854775807 9223372036854775807 0 1 INV\n")},
 	}
 }
@@ -1165,6 +1170,25 @@ func runC14(c *Ctx) error {
 			}
 			if gi+1 < ng {
 				tgts = append(tgts, tgt{"later-output", base.Gates[gi+1+r.Intn(ng-gi-1)].Output, base.NumWires})
+			}
+			// the gate's OUTPUT id replaced by an input wire id; XOR/AND/.. w w w and INV w w on an input wire w
+			nin := base.Inputs.Size()
+			for _, w := range []int{0, nin - 1, r.Intn(nin)} {
+				for v := 0; v < 2; v++ {
+					m := circuit.Circuit{NumGates: base.NumGates, NumWires: base.NumWires, Inputs: base.Inputs, Outputs: base.Outputs,
+						Gates: append([]circuit.Gate(nil), base.Gates...)}
+					m.Gates[gi].Output = circuit.Wire(w)
+					kind := fmt.Sprintf("gate-output:=input-wire:%d-of-%d", gi, ng)
+					if v == 1 {
+						m.Gates[gi].Input0 = circuit.Wire(w)
+						if m.Gates[gi].Op != circuit.INV {
+							m.Gates[gi].Input1 = circuit.Wire(w)
+						}
+						kind = fmt.Sprintf("gate:=op-w-w-w-on-input-wire:%d-of-%d", gi, ng)
+					}
+					offer(0, c14Marshal(0, &m), kind, c14Marshal(0, base))
+					offer(1, c14Marshal(1, &m), kind, c14Marshal(1, base))
+				}
 			}
 			for _, t := range tgts {
 				for in := 0; in < 2; in++ {
